@@ -32,6 +32,7 @@ func init() {
 			{ID: "C20.R9", Text: "the server is asked: in every single-operation wrapper each return is dominated by the call that issues the operation, or carries an error known to be non-nil (no answer from a cache)", Run: opAlwaysIssued},
 			{ID: "C20.R10", Text: "no success without confirmation in the checkpoint write ladder (same rule as C05.R15)", Run: upsertLadder},
 			{ID: "C20.R11", Text: "no step around an operation loses its error: every fallible call in a wrapper (configuration snapshot, id resolution, dispatch, AsyncOp.Wait, errgroup Wait) has its error reach a return/panic/send along edges on which it can be non-nil; a result channel is read only after Wait succeeded; an errgroup's Wait is reported", Run: wrapperStepErrors},
+			{ID: "C20.R12", Text: "every single-operation wrapper evaluated whole over the fate of its operation (completed | refused at dispatch | completed with the server's error and nil results | never completed): returns nil exactly when the operation completed without error, a non-nil error otherwise, never blocks on its result channel, never panics on an absent result", Run: wrapperOutcomes},
 			{ID: "C20.R4", Text: "a deadline exists for every operation (own deadline from time.Now, or a deadline-bearing context at every call site)", Run: c20r4},
 		},
 	})
